@@ -47,8 +47,8 @@ CHECKS = {
         level_text="Proved in Lean 4 for every tree height and every hash algebra, under collision-freedom (H.Inj): C08_appendonly — after ANY well-formed history "
                    "(unbounded list of blocks that commit or are rolled back at any point incl. a fault inside AddLeaf, restarts, reorgs) every stored root version m and every "
                    "position i<m: GetLeaf returns the i-th surviving leaf and CalculateRoot(leaf, GetProof(i, root), i) = root; C08_roots_are_versions ties the quantified versions to the "
-                   "rows of the root table; C08_updatable_step — an UpsertLeaf on a closed store yields the spec root of the updated leaves and every written position verifies (one-step "
-                   "form; lifting over upsert histories is by the same monotone invariant). Proof stack: frontier loop (addLoop_full), node-store invariants Consistent/Closed, getSiblings_spec "
+                   "rows of the root table; C08_updatable_step — an UpsertLeaf on a closed store yields the spec root of the updated leaves and every written position verifies (one step); "
+                   "C08_updatable_history — from the empty tree, after ANY sequence of successful upserts (keys increasing, positions in range) and for EVERY recorded root, the value served for a written position is the value last written as of that root and the proof served hashes with it to that root, however often the position was overwritten since. Proof stack: frontier loop (addLoop_full), node-store invariants Consistent/Closed, getSiblings_spec "
                    "(zero-hash fallback included), calcRoot_spec, initCache correctness, history induction (runHistory_inv). Tie: the real tree package (SQLite, real Tx + rollback callbacks) and the "
                    "compiled Lean model run the same op lines (adds, rollbacks, failing adds, restarts, reorgs, fabricated high-index pre-states at 2^k boundaries, upserts) and all observations are compared; "
                    "monitors check every (root, covered position) pair with CalculateRoot on the implementation.",
